@@ -432,6 +432,9 @@ def run_case_impl(case, route="grad"):
         flat.backward(c)
         gs = [t.grad for t in ts]
     r.grads = [None if g is None else g.detach().double() for g in gs]
+    # purity: forward and backward must leave the caller's tensors bit-for-bit unchanged
+    r.impure = [li for li, (t, v, s_, ty) in enumerate(zip(ts, case["values"], case["lshapes"], ltypes))
+                if not torch.equal(t.detach(), torch.tensor(v, dtype=torch.float64).to(D).reshape(tuple(s_) + (tdim(ty),)))]
     r.grad_dtypes = [None if g is None else str(g.dtype).replace("torch.", "") for g in gs]
     r.leaf_tensors = ts
     return r
@@ -533,7 +536,7 @@ def collect_model(case, reps, index):
     ltypes = [tuple(t) for t in case["ltypes"]]
     nb = int(math.prod(case["bshape"]))
     M = {"eval": [None] * nb, "grad": [None] * nb, "abs": [None] * nb, "cmax": [0.0] * nb, "jabs": None,
-         "fd": [[None] * len(ltypes) for _ in range(nb)], "err": []}
+         "fd": [[None] * len(ltypes) for _ in range(nb)], "fdbar": [[None] * len(ltypes) for _ in range(nb)], "err": []}
     for rep, (kind, b, li) in zip(reps, index):
         st, toks = common.parse_reply(rep)
         if st != "ok":
@@ -557,7 +560,9 @@ def collect_model(case, reps, index):
             M["abs"][b] = ab
             M["cmax"][b] = xs[2 * tot]
         else:
-            M["fd"][b][li] = xs
+            h = len(xs) // 2
+            M["fd"][b][li] = xs[:h]
+            M["fdbar"][b][li] = xs[h:]
     return M
 
 
@@ -620,7 +625,7 @@ def site_info(case, r):
             tau, phi, sg = xi[..., :3].norm(dim=-1), xi[..., 3:6].norm(dim=-1), xi[..., 6].abs()
             a = float(torch.sqrt(4 * phi ** 2 + 3 * sg ** 2 + 3 * tau ** 2).max())
             if kind == "Exp":
-                trunc += a ** 6 * math.exp(a) / 5040
+                trunc += a ** 6 * math.exp(a) / 5040 if a < 40 else 1e9
             elif a < 5.5:
                 trunc += 2 * a ** 6 / 30240 / (1 - (a / (2 * math.pi)) ** 2)
             else:
@@ -681,6 +686,43 @@ def row_scales(case, M, li, i_rows, blockwise):
     return out
 
 
+def ulp_floor(r, li, nrows, dim):
+    """round-off floor measured on the real code (single Functions only): 8 x the change of the gradient when every input
+    entry moves to a neighbouring floating-point number.  No comparison can ask for more than the implementation's own
+    sensitivity to 1-ulp input changes; unlike a magnitude factor it is specific to the entry."""
+    fl = getattr(r, "floor", None)
+    if fl is None or fl[li] is None:
+        return [[0.0] * dim for _ in range(nrows)]
+    return fl[li].reshape(-1, dim).tolist()
+
+
+def measure_floor(case, r, n_jitter=2):
+    """fills r.floor by re-running the real code on inputs jittered by +-1 ulp (deterministic pattern)"""
+    eps = common.EPS[case["dtype"]]
+    floors = [None if g is None else torch.zeros_like(g) for g in r.grads]
+    for k in range(n_jitter):
+        c2 = dict(case)
+        vals = []
+        for li, v in enumerate(case["values"]):
+            t = torch.tensor(v, dtype=torch.float64)
+            idx = torch.arange(t.numel(), dtype=torch.float64).reshape(t.shape)
+            sign = torch.where(((idx * (3 + 2 * k) + li + k) % 3) < 1.5, 1.0, -1.0)
+            t2 = U.to_dtype_exact((t * (1 + sign * eps)).tolist(), case["dtype"])[1] if t.numel() else t
+            vals.append(t2.tolist())
+        c2["values"] = vals
+        try:
+            r2 = run_case_impl(c2)
+        except Exception:
+            continue
+        for li, (g, g2) in enumerate(zip(r.grads, r2.grads)):
+            if g is None or g2 is None or g.shape != g2.shape:
+                continue
+            d = (g - g2).abs()
+            d = torch.where(torch.isfinite(d), d, torch.zeros_like(d))
+            floors[li] = torch.maximum(floors[li], 8 * d)
+    r.floor = floors
+
+
 def compare_grads(case, r, M, band):
     """-> list of (leaf, row, err, tol) where the real gradient and the model backprop differ beyond tolerance"""
     ltypes = [tuple(t) for t in case["ltypes"]]
@@ -693,19 +735,23 @@ def compare_grads(case, r, M, band):
         got = r.grads[li]
         got = [[0.0] * tdim(ty) for _ in want] if got is None else got.reshape(-1, tdim(ty)).tolist()
         sc = row_scales(case, M, li, len(want), bw)
+        fl = ulp_floor(r, li, len(want), tdim(ty))
         for i, (gr, wr) in enumerate(zip(got, want)):
             for (lo, hi), s_ in sc[i]:
                 err = max((abs(a - b) for a, b in zip(gr[lo:hi], wr[lo:hi])), default=0.0)
+                f_ = max(fl[i][lo:hi], default=0.0)
                 if s_ > 0:
-                    worst = max(worst, err / s_ / t)
-                if not (err <= t * s_):
-                    bad.append((li, i, err, t * s_))
+                    worst = max(worst, err / (s_ * t + f_))
+                if not (err <= t * s_ + f_):
+                    bad.append((li, i, err, t * s_ + f_))
     return bad, worst
 
 
 def compare_oracle(case, r, M, band, trunc):
     """the property's own statement: real gradient (manifold slots) == true left-perturbation derivative.
-    -> (list of (leaf, row, err, tol), n_checked, n_skipped)"""
+    -> (list of (leaf, row, err, tol), n_checked, n_skipped).  Every finite-difference entry comes with its own error bar
+    (Richardson estimate in 192-bit arithmetic); the bar is added to the tolerance and entries whose bar exceeds the
+    tolerance are not judged (counted as skipped)."""
     ltypes = [tuple(t) for t in case["ltypes"]]
     bshape = tuple(case["bshape"])
     nb = int(math.prod(bshape))
@@ -718,18 +764,25 @@ def compare_oracle(case, r, M, band, trunc):
             nskip += 1
             continue
         m = tangent_dim(ty)
-        want = sum_to_leaf(bshape, tuple(case["lshapes"][li]), rows)
+        lsh = tuple(case["lshapes"][li])
+        want = sum_to_leaf(bshape, lsh, rows)
+        bars = sum_to_leaf(bshape, lsh, [M["fdbar"][b][li] for b in range(nb)])
         got = r.grads[li]
         got = [[0.0] * tdim(ty) for _ in want] if got is None else got.reshape(-1, tdim(ty)).tolist()
         sc = row_scales(case, M, li, len(want), bw)
+        fl = ulp_floor(r, li, len(want), tdim(ty))
         nchk += 1
-        for i, (gr, wr) in enumerate(zip(got, want)):
+        for i, (gr, wr, br) in enumerate(zip(got, want, bars)):
             for (lo, hi), s_ in sc[i]:
                 hi = min(hi, m)
-                err = max((abs(a - b) for a, b in zip(gr[lo:hi], wr[lo:hi])), default=0.0)
                 s2 = max(s_, max((abs(v) for v in wr[lo:hi]), default=0.0))
-                if not (err <= t * s2):
-                    bad.append((li, i, err, t * s2))
+                for j in range(lo, hi):
+                    if not (br[j] <= t * s2):
+                        nskip += 1          # the difference quotient itself is not accurate enough here
+                        continue
+                    err = abs(gr[j] - wr[j])
+                    if not (err <= t * s2 + br[j] + fl[i][j]):
+                        bad.append((li, i, err, t * s2 + br[j] + fl[i][j]))
     return bad, nchk, nskip
 
 
@@ -742,6 +795,9 @@ def structural_checks(ctx, case, r):
     ok = True
     if not r.out_shape_ok:
         ctx.fail(case, f"type: output shape wrong for {ps}")
+        ok = False
+    if r.impure:
+        ctx.fail(case, f"purity: evaluating / differentiating {ps} changed the caller's leaf tensors {r.impure} ({case['dtype']})")
         ok = False
     if not bool(torch.isfinite(r.out).all()):
         ctx.fail(case, f"nan: value of {ps} contains NaN/Inf ({case['dtype']})")
@@ -812,7 +868,7 @@ def assess(case, r, M):
     vmax = max((abs(x) for v in case["values"] for x in torch.tensor(v, dtype=torch.float64).flatten().tolist()), default=0.0)
     A = {"fbad": None, "gbad": [], "obad": [], "nchk": 0, "nskip": 0, "oracle_skipped": False, "worst": 0.0}
     for b in range(nb):
-        sc = max((abs(v) for v in M["eval"][b]), default=0.0) + 1e-10 * (1.0 + vmax)
+        sc = max(1.0, max((abs(v) for v in M["eval"][b]), default=0.0))   # sanity only: the forward laws are C01-C03's
         e = max((abs(a - c) for a, c in zip(out[b], M["eval"][b])), default=0.0)
         if not (e <= tf * sc) or len(out[b]) != len(M["eval"][b]):
             A["fbad"] = (b, e, tf * sc)
@@ -842,7 +898,7 @@ def record(ctx: Ctx, case, r, A):
     else:
         ctx.count("oracle.leaves-checked", A["nchk"])
         if A["nskip"]:
-            ctx.count("oracle.leaves-skipped.fd-unstable", A["nskip"])
+            ctx.count("oracle.entries-skipped.fd-inaccurate", A["nskip"])
         if A["obad"]:
             li, i, err, t = A["obad"][0]
             ops = sorted({f"{o}[{g}]" for o, g in prog_ops(node)})
@@ -874,6 +930,7 @@ def evaluate_cases(ctx: Ctx, cases, stream, want_fd=True):
                 lines, index = model_lines(case, ev, want_fd=False)
                 M2 = collect_model(case, ctx.driver.run(lines), index)
                 M2["fd"] = M["fd"]
+                M2["fdbar"] = M["fdbar"]
                 if M.get("jabs") is not None:
                     M2["jabs"] = M["jabs"]
                 A2 = assess(case, r, M2)
@@ -900,6 +957,8 @@ def prepare(ctx: Ctx, case, rng, tries=8):
         g = guards(case, r)
         if g is None:
             r.band, r.trunc = site_info(case, r)
+            if case.get("blockwise"):
+                measure_floor(case, r)
             return r
         ctx.count("domain-redraw." + g)
     return None
@@ -972,7 +1031,7 @@ def local_case(rng, op, g, dtype):
     shape = rng.choice([(), (2,), (3,), (2, 2)])
     lshapes = [shape if (not shape or rng.random() < 0.75) else () for _ in L]
     bshape = tuple(torch.broadcast_shapes(*lshapes))
-    return {"stream": "local", "prog": to_json(node), "ltypes": [list(t) for t in L], "dtype": dtype,
+    return {"stream": "local", "prog": to_json(node), "ltypes": [list(t) for t in L], "dtype": dtype, "blockwise": True,
             "lshapes": [list(s) for s in lshapes], "bshape": list(bshape), "root": list(node_type(node, L))}
 
 
@@ -1018,6 +1077,7 @@ def run_local(ctx: Ctx, reps: int):
                 r.band, r.trunc = site_info(case, r)
                 if not structural_checks(ctx, case, r):
                     continue
+                measure_floor(case, r)
                 account(ctx, case, "identity")
                 cases.append((case, r))
     evaluate_cases(ctx, cases, "local")
@@ -1125,17 +1185,525 @@ def run_routes(ctx: Ctx, n_cases: int):
         check_routes(ctx, case, r)
 
 
+# ----------------------------------------------------------------------------- deterministic corner corpus
+
+def quat_of(angle, axis, neg=False):
+    n = math.sqrt(sum(a * a for a in axis)) or 1.0
+    s, w = math.sin(angle / 2), math.cos(angle / 2)
+    q = [axis[0] / n * s, axis[1] / n * s, axis[2] / n * s, w]
+    return [-v for v in q] if neg else q
+
+
+CORPUS_AXES = [(1.0, 0.0, 0.0), (0.3, -0.5, 0.8), (0.0, 0.0, -1.0), (-0.6, 0.64, 0.48), (1e-9, 1.0, 0.5)]
+
+
+def corpus_items(ty, dtype, kind, n):
+    """n fixed items of type ty covering the regimes of every block; `kind` = op that consumes the rotation
+    (Log / Jinvp keep away from pi, Jinvp from 0)"""
+    eps = common.EPS[dtype]
+    se = math.sqrt(eps)
+    g_ang = [0.0, 1e-30, eps / 2, eps * (1 - 2 ** -10), eps * (1 + 2 ** -10), 2 * eps, 1e-12, se, 1e-4, 0.04, 0.06, 1.0, 2.2,
+             math.pi - 0.31]
+    if kind == "Jinvp":
+        g_ang = [2e-3, 1e-2, 0.04, 0.06, 0.5, 1.0, 2.2, math.pi - 0.31]
+    if kind not in ("Log", "Jinvp"):
+        g_ang = g_ang + [math.pi - 1e-6, math.pi]
+    a_ang = [0.0, 1e-30, eps / 2, eps * (1 - 2 ** -10), eps * (1 + 2 ** -10), 2 * eps, 1e-12, se, 1e-4, 0.04, 0.0500001, 0.06, 1.0,
+             3.0, 3.5, 6.0, 6.4]
+    trans = [0.0, 1.0, 1e-8, 1e3, 3.0, 1e6, 0.25, 1e-30]
+    lscale = [0.0, 0.7, -0.7, 1e-30, -eps / 2, eps * (1 + 2 ** -10), 1e-8, -1e-3, 12.0, -12.0, 40.0, -40.0]
+    pts = [1.0, 0.0, 1e-8, 1e6, 2.5, 1e-30, 1e3]
+    ws = [1.0, 0.0, -2.5, 1.0, 1e-8]
+    out = []
+    for i in range(n):
+        ax = CORPUS_AXES[i % len(CORPUS_AXES)]
+        tv = [trans[i % len(trans)] * c for c in CORPUS_AXES[(i + 2) % len(CORPUS_AXES)]]
+        k = ty[0]
+        if k == "G":
+            g = ty[1]
+            q = quat_of(g_ang[i % len(g_ang)], ax, neg=(i // len(g_ang)) % 2 == 1 or i % 3 == 2)
+            v = []
+            if g in ("SE3", "Sim3"):
+                v += tv
+            v += q
+            if g in ("RxSO3", "Sim3"):
+                ls = lscale[i % len(lscale)]
+                if kind in ("Log", "Jinvp", "Exp") and g == "Sim3" and abs(ls) > 1:
+                    ls = math.copysign(0.3, ls)
+                v.append(math.exp(ls))
+            out.append(v)
+        elif k == "A":
+            g = ty[1]
+            th = a_ang[i % len(a_ang)]
+            n_ = math.sqrt(sum(a * a for a in ax))
+            phi = [th * a / n_ for a in ax]
+            v = []
+            if g in ("SE3", "Sim3"):
+                v += tv
+            v += phi
+            if g in ("RxSO3", "Sim3"):
+                v.append(lscale[i % len(lscale)])
+            if g == "Sim3" and kind in ("Exp", "Retr"):
+                # keep |ad xi| small enough for the documented truncation on every other item
+                if i % 2 == 0:
+                    v = [x * (0.2 / max(0.2, math.sqrt(sum(y * y for y in v)))) for x in v]
+            out.append(v)
+        elif k == "E3":
+            m = pts[i % len(pts)]
+            out.append([m * c for c in CORPUS_AXES[(i + 1) % len(CORPUS_AXES)]])
+        else:
+            m = pts[i % len(pts)]
+            out.append([m * c for c in CORPUS_AXES[(i + 1) % len(CORPUS_AXES)]] + [ws[i % len(ws)]])
+    return out
+
+
+def corpus_cot(n_items, dim):
+    cots = []
+    for i in range(n_items):
+        if i % 4 == 3:
+            v = [0.0] * dim
+            v[i % dim] = 1.0
+        else:
+            v = [((-1) ** (i + j)) * (0.3 + 0.37 * ((i * 7 + j * 3) % 5)) for j in range(dim)]
+        cots.append(v)
+    return cots
+
+
+def corpus_cases(dtype, n_items):
+    """one mixed-regime batch per (op, group): item k of every leaf sits in another regime (zero / tiny / around eps / sqrt(eps) /
+    0.05 / ordinary / large rotation, both hemispheres, translations 0..1e6, scales e^-40..e^40, points 0..1e6, w in {1,0,-2.5})"""
+    import random as _r
+    rng = _r.Random(4004)
+    cases = []
+    for op in LOCAL_OPS:
+        for g in GROUPS:
+            case = local_case(rng, op, g, dtype)
+            node = from_json(case["prog"])
+            ltypes = [tuple(t) for t in case["ltypes"]]
+            if len(ltypes) == 1 and node[0] == "B":      # the shared-leaf variant is covered by the random streams
+                continue
+            kind = op[1] if op[1] != "MatrixA" else "Exp"
+            case["stream"] = "corpus"
+            case["lshapes"] = [[n_items] for _ in ltypes]
+            case["bshape"] = [n_items]
+            vals = []
+            for li, ty in enumerate(ltypes):
+                rows = corpus_items(ty, dtype, kind, n_items)
+                if li == 1:           # second leaf: shift so that every regime meets several partners
+                    rows = rows[3:] + rows[:3]
+                vals.append(U.to_dtype_exact(rows, dtype)[1].tolist())
+            case["values"] = vals
+            od = tdim(node_type(node, ltypes))
+            case["cot"] = U.to_dtype_exact(corpus_cot(n_items, od), dtype)[1].tolist()
+            case["tags"] = ["corpus"] * len(ltypes)
+            cases.append(case)
+    return cases
+
+
+def single_item_case(case, b):
+    c = dict(case)
+    c["lshapes"] = [[] for _ in case["ltypes"]]
+    c["bshape"] = []
+    c["values"] = [v[b] for v in case["values"]]
+    c["cot"] = case["cot"][b]
+    return c
+
+
+def run_corpus(ctx: Ctx, n_items: int, dtypes, fd_every: int):
+    """(2) deterministic corner corpus, identical for every seed; (1) extreme-but-valid magnitudes; (3) per-block relative
+    tolerances; (7) mixed-regime batches, additionally compared item by item with the same call on each item alone"""
+    kept = []
+    for dtype in dtypes:
+        for case in corpus_cases(dtype, n_items):
+            node = from_json(case["prog"])
+            ps = prog_str(node)
+            case["fd"] = True
+            try:
+                r = run_case_impl(case)
+            except Exception as e:
+                ctx.fail(case, f"raises: autograd of {ps} on the corner corpus raised {type(e).__name__}: {str(e)[:160]}")
+                continue
+            try:
+                r.band, r.trunc = site_info(case, r)
+            except Exception as e:
+                ctx.fail(case, f"raises: {ps} on the corner corpus: {type(e).__name__}: {str(e)[:160]}")
+                continue
+            account(ctx, case, "corpus")
+            if not structural_checks(ctx, case, r):
+                continue
+            measure_floor(case, r)
+            # item-wise = batched, on the real code
+            nb = case["bshape"][0]
+            for b in range(nb):
+                c1 = single_item_case(case, b)
+                try:
+                    r1 = run_case_impl(c1)
+                except Exception as e:
+                    ctx.fail(c1, f"raises: {ps} on a single corpus item raised {type(e).__name__}: {str(e)[:120]}")
+                    continue
+                t = 256 * common.EPS[dtype]
+                for li, (gb, g1) in enumerate(zip(r.grads, r1.grads)):
+                    if gb is None or g1 is None:
+                        continue
+                    ty = tuple(case["ltypes"][li])
+                    rowb, row1 = gb[b].tolist(), g1.tolist()
+                    for lo, hi in blocks(ty):
+                        err = max(abs(x - y) for x, y in zip(rowb[lo:hi], row1[lo:hi]))
+                        sc = max(abs(y) for y in row1[lo:hi])
+                        if not (err <= t * sc) and not (sc == 0 and err <= 1e-300):
+                            ctx.fail(dict(c1, batch_case={k: case[k] for k in ("prog", "ltypes", "dtype")}, item=b),
+                                     f"batch: gradient of leaf {li} of {ps} for item {b} inside a mixed-regime batch differs from the "
+                                     f"same call on that item alone by {err:.3e} (block scale {sc:.3e}, {dtype})")
+                            break
+                ob, o1 = r.out[b].flatten().tolist(), r1.out.flatten().tolist()
+                err = max((abs(x - y) for x, y in zip(ob, o1)), default=0.0)
+                sc = max((abs(y) for y in o1), default=0.0)
+                if not (err <= t * sc) and not (sc == 0 and err <= 1e-300):
+                    ctx.fail(dict(c1, item=b), f"batch: value of {ps} for item {b} inside a mixed-regime batch differs from the single call by {err:.3e} ({dtype})")
+                ctx.count("corpus.items")
+            kept.append((case, r))
+    # model + oracle: finite differences on every fd_every-th case (all of them in the thorough tier)
+    for i, (case, r) in enumerate(kept):
+        case["fd"] = (i % fd_every == 0)
+    evaluate_cases(ctx, kept, "corpus")
+
+
+# ----------------------------------------------------------------------------- reuse / stale reads / views
+
+REUSE_PROGS = [
+    ("Act", lambda X, a, p: X.Act(p)),
+    ("AdjT", lambda X, a, p: X.AdjT(a)),
+    ("LogMul", lambda X, a, p: (a.Exp() @ X).Log()),
+    ("Jinvp", lambda X, a, p: X.Jinvp(a)),
+    ("matrix", lambda X, a, p: X.Inv().matrix()),
+]
+
+
+def fixed_inputs(P, g, dtype, n, salt):
+    """deterministic valid inputs (X, a, p) of batch size n"""
+    D = U.dt(dtype)
+    X = torch.tensor(corpus_items(("G", g), dtype, "Jinvp", n + salt)[salt:], dtype=torch.float64).to(D)
+    a = torch.tensor([[0.2 * math.sin(1.0 + i + 3 * j + salt) for j in range(AD_[g])] for i in range(n)], dtype=torch.float64).to(D)
+    p = torch.tensor([[1.5 * math.cos(0.5 + i + 2 * j + salt) for j in range(3)] for i in range(n)], dtype=torch.float64).to(D)
+    return X, a, p
+
+
+def lie(P, g, X, a):
+    return P.LieTensor(X, ltype=U.ltype(g)), P.LieTensor(a, ltype=U.ltype(U.ALG[g]))
+
+
+def grads_of(P, fn, g, X, a, p, c=None):
+    Xl = X.clone().requires_grad_(True)
+    al = a.clone().requires_grad_(True)
+    pl = p.clone().requires_grad_(True)
+    XL, aL = lie(P, g, Xl, al)
+    out = as_tensor(P, fn(XL, aL, pl))
+    if c is None:
+        c = torch.cos(torch.arange(out.numel(), dtype=torch.float64) * 0.7 + 0.3).reshape(out.shape).to(out.dtype)
+    gs = torch.autograd.grad(out, [Xl, al, pl], grad_outputs=c, allow_unused=True)
+    return out.detach(), [None if x is None else x.detach() for x in gs]
+
+
+def same(a, b):
+    if a is None or b is None:
+        return a is None and b is None
+    return a.shape == b.shape and a.dtype == b.dtype and bool(torch.equal(torch.nan_to_num(a, nan=1234.5), torch.nan_to_num(b, nan=1234.5)))
+
+
+def patched_functions():
+    import torch._functorch.eager_transforms as et
+    import torch._functorch.vmap as vm
+    return (torch.autograd.forward_ad.make_dual, et._wrap_tensor_for_grad, vm._add_batch_dim)
+
+
+def run_reuse(ctx: Ctx):
+    """(4) object reuse: the objects of this property that live across calls are the `pp.func.jacrev` wrapper, an nn.Module
+    handed to `modjac` several times, an autograd graph that is differentiated more than once, and the torch functions
+    patched by `retain_ltype`.  Every per-call argument (group, dtype, batch size, input, cotangent, vectorize / flatten
+    flags) varies between the calls of one history; each result must equal the result of a fresh object."""
+    P = U.pp()
+    before = patched_functions()
+    for name, fn in REUSE_PROGS:
+        case0 = {"stream": "reuse", "program": name}
+        # --- one jacrev wrapper, many calls
+        try:
+            wrapper = P.func.jacrev(fn, argnums=(0, 1, 2))
+            hist = [("SE3", "float64", 2), ("SO3", "float32", 1), ("Sim3", "float64", 3), ("SE3", "float64", 2), ("RxSO3", "float64", 1),
+                    ("SO3", "float64", 4)]
+            for k, (g, dtype, n) in enumerate(hist):
+                case = dict(case0, call=k, type=g, dtype=dtype, batch=n, object="jacrev")
+                X, a, p = fixed_inputs(P, g, dtype, n, k)
+                XL, aL = lie(P, g, X, a)
+                J = wrapper(XL, aL, p)
+                Jf = P.func.jacrev(fn, argnums=(0, 1, 2))(*lie(P, g, X.clone(), a.clone()), p.clone())
+                ctx.note_case(("reuse", "jacrev", name, k), True)
+                ctx.count("reuse.jacrev")
+                for j1, j2 in zip(J, Jf):
+                    if not same(torch.Tensor.as_subclass(j1, torch.Tensor), torch.Tensor.as_subclass(j2, torch.Tensor)):
+                        ctx.fail(case, f"reuse: call #{k} of one pp.func.jacrev wrapper ({name}, {g}, {dtype}, batch {n}) differs from a fresh wrapper")
+                        break
+                if patched_functions() != before:
+                    ctx.fail(case, f"reuse: torch functions patched by retain_ltype are not restored after pp.func.jacrev ({name})")
+                    break
+        except Exception as e:
+            ctx.fail(case0, f"raises: re-used pp.func.jacrev wrapper ({name}) raised {type(e).__name__}: {str(e)[:140]}")
+        # --- one graph, several backward passes (saved tensors must survive a backward)
+        for g, dtype in (("SE3", "float64"), ("Sim3", "float32"), ("SO3", "float64"), ("RxSO3", "float64")):
+            case = dict(case0, type=g, dtype=dtype, object="graph")
+            try:
+                X, a, p = fixed_inputs(P, g, dtype, 3, 1)
+                Xl, al, pl = X.clone().requires_grad_(True), a.clone().requires_grad_(True), p.clone().requires_grad_(True)
+                XL, aL = lie(P, g, Xl, al)
+                out = as_tensor(P, fn(XL, aL, pl))
+                c1 = torch.sin(torch.arange(out.numel(), dtype=torch.float64) + 0.2).reshape(out.shape).to(out.dtype)
+                c2 = torch.cos(torch.arange(out.numel(), dtype=torch.float64) * 1.3).reshape(out.shape).to(out.dtype)
+                g1 = torch.autograd.grad(out, [Xl, al, pl], c1, retain_graph=True, allow_unused=True)
+                g2 = torch.autograd.grad(out, [Xl, al, pl], c2, retain_graph=True, allow_unused=True)
+                g3 = torch.autograd.grad(out, [Xl, al, pl], c1, retain_graph=True, allow_unused=True)
+                ctx.note_case(("reuse", "graph", name, g, dtype), True)
+                ctx.count("reuse.graph")
+                if not all(same(x, y) for x, y in zip(g1, g3)):
+                    ctx.fail(case, f"reuse: third backward through one graph of {name} ({g}, {dtype}) differs from the first with the same cotangent")
+                out.backward(c1, retain_graph=True)
+                out.backward(c2)
+                for leaf, x1, x2 in zip((Xl, al, pl), g1, g2):
+                    if x1 is None:
+                        continue
+                    acc = x1 + x2
+                    err = float((leaf.grad - acc).abs().max())
+                    if err > 4 * common.EPS[dtype] * (1e-300 + float(acc.abs().max())):
+                        ctx.fail(case, f"reuse: .grad accumulated over two backward calls of {name} ({g}, {dtype}) is not the sum of the two gradients (err {err:.3e})")
+                _, gf = grads_of(P, fn, g, X, a, p, c1)
+                if not all(same(x, y) for x, y in zip(g1, gf)):
+                    ctx.fail(case, f"reuse: gradient of {name} ({g}, {dtype}) depends on earlier calls (differs from a fresh evaluation)")
+            except Exception as e:
+                ctx.fail(case, f"raises: repeated backward of {name} ({g}) raised {type(e).__name__}: {str(e)[:140]}")
+    # --- one Module handed to modjac several times with varied input and flags
+    for g in GROUPS:
+        case = {"stream": "reuse", "object": "modjac", "type": g}
+        try:
+            X, a, p = fixed_inputs(P, g, "float64", 2, 2)
+
+            class Mod(torch.nn.Module):
+                def __init__(s):
+                    super().__init__()
+                    s.X = P.Parameter(P.LieTensor(X.clone(), ltype=U.ltype(g)))
+                    s.a = P.Parameter(P.LieTensor(a.clone(), ltype=U.ltype(U.ALG[g])))
+
+                def forward(s, q):
+                    return (s.a.Exp() @ s.X).Act(q)
+            mod = Mod()
+            snap = [x.detach().clone() for x in mod.parameters()]
+            attrs = sorted(vars(mod).keys())
+            hist = [(1, False, False), (3, True, False), (1, False, True), (2, True, True), (3, False, False), (1, False, False)]
+            for k, (npts, vec, flat) in enumerate(hist):
+                q = torch.tensor([[0.3 * (i + 1) * math.cos(j + k) for j in range(3)] for i in range(npts)], dtype=torch.float64).unsqueeze(1)
+                J = P.optim.functional.modjac(mod, input=q, vectorize=vec, flatten=flat)
+                Jf = P.optim.functional.modjac(Mod(), input=q.clone(), vectorize=vec, flatten=flat)
+                J = J if isinstance(J, tuple) else (J,)
+                Jf = Jf if isinstance(Jf, tuple) else (Jf,)
+                ctx.note_case(("reuse", "modjac", g, k), True)
+                ctx.count("reuse.modjac")
+                tol = 0.0 if not vec else 64 * common.EPS["float64"]
+                for j1, j2 in zip(J, Jf):
+                    j1, j2 = torch.Tensor.as_subclass(j1, torch.Tensor), torch.Tensor.as_subclass(j2, torch.Tensor)
+                    if j1.shape != j2.shape or float((j1 - j2).abs().max()) > tol * (1 + float(j2.abs().max())):
+                        ctx.fail(dict(case, call=k, npts=npts, vectorize=vec, flatten=flat),
+                                 f"reuse: call #{k} of modjac on one module ({g}, {npts} points, vectorize={vec}, flatten={flat}) differs from a fresh module")
+                        break
+                if not all(same(x.detach(), y) for x, y in zip(mod.parameters(), snap)) or any(x.grad is not None for x in mod.parameters()) \
+                        or sorted(vars(mod).keys()) != attrs:
+                    ctx.fail(dict(case, call=k), f"reuse: modjac changed the module it was given ({g}): parameters / .grad / attributes")
+                    break
+        except Exception as e:
+            ctx.fail(case, f"raises: repeated modjac on one module ({g}) raised {type(e).__name__}: {str(e)[:140]}")
+    if patched_functions() != before:
+        ctx.fail({"stream": "reuse"}, "reuse: torch functions patched by retain_ltype are not restored at the end of the history")
+
+
+def run_stale(ctx: Ctx):
+    """(5) stale reads: the caller keeps its leaf tensors, updates them in place between calls (add_, copy_, item
+    assignment, identity_) and differentiates again — value and gradient must describe the current state (bit for bit
+    the result of fresh tensors holding the same data)."""
+    P = U.pp()
+    for g in GROUPS:
+        for dtype in ("float64", "float32"):
+            D = U.dt(dtype)
+            X, a, p = fixed_inputs(P, g, dtype, 3, 0)
+            Xl, al, pl = X.clone().requires_grad_(True), a.clone().requires_grad_(True), p.clone().requires_grad_(True)
+            XL, aL = lie(P, g, Xl, al)
+            case = {"stream": "stale", "type": g, "dtype": dtype}
+            try:
+                for name, fn in REUSE_PROGS:       # first reads: this is where a cache would be filled
+                    fn(XL, aL, pl)
+                for u in range(5):
+                    kind = ["add_", "copy_", "setitem", "add_", "identity_"][u]
+                    Xn, an, pn = fixed_inputs(P, g, dtype, 3, u + 1)
+                    with torch.no_grad():
+                        if kind == "add_":
+                            XL.add_(0.3 * an)
+                            aL.add_(0.5 * an)
+                            pl.add_(pn)
+                        elif kind == "copy_":
+                            XL.copy_(P.LieTensor(Xn, ltype=U.ltype(g)))
+                            aL.copy_(P.LieTensor(an, ltype=U.ltype(U.ALG[g])))
+                            pl.copy_(pn)
+                        elif kind == "setitem":
+                            XL[1] = P.LieTensor(Xn, ltype=U.ltype(g))[0]
+                            aL[2] = P.LieTensor(an, ltype=U.ltype(U.ALG[g]))[1]
+                            pl[0] = pn[2]
+                        else:
+                            try:
+                                XL.identity_()
+                            except (NotImplementedError, AttributeError):
+                                XL.copy_(P.LieTensor(Xn, ltype=U.ltype(g)))
+                            aL.fill_(0.0)
+                    for name, fn in REUSE_PROGS:
+                        if name in ("Jinvp",) and kind == "identity_":
+                            continue          # Jinvp: away from the zero rotation
+                        out = as_tensor(P, fn(XL, aL, pl))
+                        c = torch.cos(torch.arange(out.numel(), dtype=torch.float64) * 0.7 + 0.3).reshape(out.shape).to(out.dtype)
+                        gs = torch.autograd.grad(out, [Xl, al, pl], grad_outputs=c, allow_unused=True)
+                        of, gf = grads_of(P, fn, g, Xl.detach(), al.detach(), pl.detach(), c)
+                        ctx.note_case(("stale", g, dtype, name, u), True)
+                        ctx.count("stale.reads")
+                        if not same(out.detach(), of):
+                            ctx.fail(dict(case, update=kind, update_index=u, program=name),
+                                     f"stale: value of {name} on {g} tensors updated in place (#{u}, {kind}) differs from fresh tensors with the same data ({dtype})")
+                        elif not all(same(None if x is None else x.detach(), y) for x, y in zip(gs, gf)):
+                            ctx.fail(dict(case, update=kind, update_index=u, program=name),
+                                     f"stale: gradient of {name} on {g} tensors updated in place (#{u}, {kind}) differs from fresh tensors with the same data ({dtype})")
+            except Exception as e:
+                ctx.fail(case, f"raises: stale-read history on {g} ({dtype}) raised {type(e).__name__}: {str(e)[:140]}")
+
+
+def run_views(ctx: Ctx):
+    """(6) views and aliases: leaves that are slices of a larger buffer, transposed (non-contiguous) batches, expanded
+    (stride 0) tensors, the same tensor passed as both arguments; the gradient must equal the one for contiguous copies,
+    vanish outside the view, and the caller's buffers must be bit-for-bit unchanged by forward and backward."""
+    P = U.pp()
+    for g in GROUPS:
+        for dtype in ("float64", "float32"):
+            D = U.dt(dtype)
+            gd, ad = GD[g], AD_[g]
+            for name, fn in REUSE_PROGS:
+                case = {"stream": "views", "type": g, "dtype": dtype, "program": name}
+                try:
+                    X, a, p = fixed_inputs(P, g, dtype, 4, 3)
+                    # buffers: X in columns 2..2+gd of a wider buffer, a as every second row, p transposed storage
+                    bufX = torch.full((4, gd + 5), 7.25, dtype=D)
+                    bufX[:, 2:2 + gd] = X
+                    bufa = torch.full((8, ad), -3.5, dtype=D)
+                    bufa[::2] = a
+                    bufp = torch.full((3, 4), 0.125, dtype=D)
+                    bufp[:, :] = p.t()
+                    for b_ in (bufX, bufa, bufp):
+                        b_.requires_grad_(True)
+                    snaps = [b_.detach().clone() for b_ in (bufX, bufa, bufp)]
+                    Xv, av, pv = bufX[:, 2:2 + gd], bufa[::2], bufp.t()
+                    XL, aL = lie(P, g, Xv, av)
+                    out = as_tensor(P, fn(XL, aL, pv))
+                    c = torch.cos(torch.arange(out.numel(), dtype=torch.float64) * 0.7 + 0.3).reshape(out.shape).to(out.dtype)
+                    gs = torch.autograd.grad(out, [bufX, bufa, bufp], grad_outputs=c, allow_unused=True)
+                    of, gf = grads_of(P, fn, g, X, a, p, c)
+                    ctx.note_case(("views", g, dtype, name), True)
+                    ctx.count("views.cases")
+                    if not all(same(b_.detach(), s_) for b_, s_ in zip((bufX, bufa, bufp), snaps)):
+                        ctx.fail(case, f"purity: {name} on {g} views ({dtype}) changed the caller's buffers")
+                    if not same(out.detach(), of):
+                        ctx.fail(case, f"views: value of {name} on non-contiguous {g} views differs from contiguous copies ({dtype})")
+                    inside = [None if gs[0] is None else gs[0][:, 2:2 + gd], None if gs[1] is None else gs[1][::2],
+                              None if gs[2] is None else gs[2].t()]
+                    for k, (x, y) in enumerate(zip(inside, gf)):
+                        if (x is None) != (y is None) or (x is not None and not same(x.contiguous(), y)):
+                            ctx.fail(case, f"views: gradient #{k} of {name} on non-contiguous {g} views differs from contiguous copies ({dtype})")
+                    if gs[0] is not None:
+                        outside = torch.cat([gs[0][:, :2], gs[0][:, 2 + gd:]], dim=1)
+                        if float(outside.abs().max()) != 0.0 or (gs[1] is not None and float(gs[1][1::2].abs().max()) != 0.0):
+                            ctx.fail(case, f"views: gradient of {name} leaks outside the view of the caller's buffer ({g}, {dtype})")
+                    # expanded (stride-0) group element acting on a batch
+                    X1 = X[:1].clone().requires_grad_(True)
+                    Xe = P.LieTensor(X1.expand(4, gd), ltype=U.ltype(g))
+                    a2 = a.clone().requires_grad_(True)
+                    p2 = p.clone().requires_grad_(True)
+                    out = as_tensor(P, fn(Xe, P.LieTensor(a2, ltype=U.ltype(U.ALG[g])), p2))
+                    ge, = torch.autograd.grad(out, [X1], grad_outputs=c, allow_unused=True)
+                    Xr = X[:1].repeat(4, 1)
+                    _, gr = grads_of(P, fn, g, Xr, a, p, c)
+                    if ge is not None:
+                        ref = gr[0].sum(0, keepdim=True)
+                        err = float((ge - ref).abs().max())
+                        if err > 64 * common.EPS[dtype] * (1e-300 + float(gr[0].abs().sum(0).max())):
+                            ctx.fail(case, f"views: gradient of an expanded (stride-0) {g} element through {name} is not the sum over the batch (err {err:.3e}, {dtype})")
+                except Exception as e:
+                    ctx.fail(case, f"raises: {name} on {g} views ({dtype}) raised {type(e).__name__}: {str(e)[:140]}")
+            # the same tensor as both arguments: X @ X, X.Adj(Log X)
+            case = {"stream": "views", "type": g, "dtype": dtype, "program": "alias"}
+            try:
+                X, a, p = fixed_inputs(P, g, dtype, 3, 5)
+                Xl = X.clone().requires_grad_(True)
+                XL = P.LieTensor(Xl, ltype=U.ltype(g))
+                out = (XL @ XL).tensor()
+                c = torch.cos(torch.arange(out.numel(), dtype=torch.float64) * 0.7 + 0.3).reshape(out.shape).to(out.dtype)
+                ga, = torch.autograd.grad(out, [Xl], c)
+                X1, X2 = X.clone().requires_grad_(True), X.clone().requires_grad_(True)
+                out2 = (P.LieTensor(X1, ltype=U.ltype(g)) @ P.LieTensor(X2, ltype=U.ltype(g))).tensor()
+                g1, g2 = torch.autograd.grad(out2, [X1, X2], c)
+                ctx.count("views.alias")
+                err = float((ga - (g1 + g2)).abs().max())
+                if not same(out.detach(), out2.detach()) or err > 4 * common.EPS[dtype] * (1e-300 + float((g1.abs() + g2.abs()).max())):
+                    ctx.fail(case, f"views: X @ X with one tensor as both arguments ({g}, {dtype}) is not the sum of the two argument gradients (err {err:.3e})")
+            except Exception as e:
+                ctx.fail(case, f"raises: aliased arguments on {g} ({dtype}) raised {type(e).__name__}: {str(e)[:140]}")
+
+
 def run(ctx: Ctx):
     torch.set_num_threads(max(1, min(4, int(os.environ.get("OMP_NUM_THREADS", "4")))))
-    run_local(ctx, ctx.pick(2, 10))
-    run_prog(ctx, ctx.pick(170, 2400))
+    # deterministic part first: identical for every seed
+    run_corpus(ctx, n_items=ctx.pick(10, 17), dtypes=("float64", "float32"), fd_every=ctx.pick(3, 1))
+    run_reuse(ctx)
+    run_stale(ctx)
+    run_views(ctx)
+    # seeded part
+    run_local(ctx, ctx.pick(1, 8))
+    run_prog(ctx, ctx.pick(130, 2200))
     run_routes(ctx, ctx.pick(16, 240))
 
 
 def search(ctx: Ctx):
-    """after a broken proof / correspondence: hunt harder for an input on which the property itself fails"""
-    run_local(ctx, 6)
-    run_prog(ctx, 600)
+    """after a broken proof / correspondence: hunt for an input on which the property itself fails.  Every program whose
+    correspondence broke is re-drawn many times with moderate magnitudes (so that the finite-difference oracle applies:
+    small sim3 elements, no extreme scales), then the random streams run at a larger size."""
+    import random as _r
+    rng = _r.Random(777 + ctx.seed)
+    seen = set()
+    cases = []
+    for d in ctx.disagreements:
+        c = d["case"]
+        if "prog" not in c:
+            continue
+        key = json_key(c["prog"]) + c["dtype"]
+        if key in seen or len(seen) >= 12:
+            continue
+        seen.add(key)
+        for k in range(24):
+            c2 = {k2: c[k2] for k2 in ("prog", "ltypes", "dtype", "root") if k2 in c}
+            c2["stream"] = "search"
+            c2["lshapes"] = [[] for _ in c["ltypes"]]
+            c2["bshape"] = []
+            c2["blockwise"] = bool(c.get("blockwise"))
+            r = prepare(ctx, c2, rng, tries=6)
+            if r is not None and structural_checks(ctx, c2, r):
+                cases.append((c2, r))
+    evaluate_cases(ctx, cases, "search")
+    if not ctx.failures:
+        run_local(ctx, 4)
+        run_prog(ctx, 400)
+
+
+def json_key(j):
+    import json as _j
+    return _j.dumps(j, sort_keys=True)
 
 
 def replay(ctx: Ctx, case) -> bool:
